@@ -275,6 +275,10 @@ func main() {
 	for _, b := range [][]byte{objA, objB, objNew} {
 		srv.objs[sbx.Sha256Hex(b)] = b
 	}
+	if os.Getenv("C11_SERVE") != "" { // development aid: only serve, for manual probing
+		fmt.Println(srv.Host, srv.PHost)
+		select {}
+	}
 	run.Set("listener_host", srv.Host)
 	run.Set("proxy_sentinel_effective", !strings.HasPrefix(srv.Host, "127."))
 	ev := &evaluator{run: run, srv: srv, gen: newGenerator(pats, run.Seed)}
@@ -294,15 +298,21 @@ func main() {
 			run.Infra("replay: %v", err)
 		}
 		cases = []kase{w.Detail.Case}
+		run.Case("replay-mode", nil)
 		run.SetMinEvaluations(1)
 	} else {
-		n := run.N(160, 3000)
+		n := run.N(150, 3000)
 		if v := os.Getenv("C11_N"); v != "" { // development aid only
 			n = atoi(v)
 		}
 		for i := 0; i < n; i++ {
-			cases = append(cases, ev.gen.genCase(i))
+			c := ev.gen.genCase(i)
+			if f := os.Getenv("C11_FILTER"); f != "" && !strings.Contains(c.class(), f) { // development aid only
+				continue
+			}
+			cases = append(cases, c)
 		}
+		n = len(cases)
 		run.SetMinEvaluations(n * 9 / 10)
 	}
 
